@@ -230,6 +230,12 @@ theorem subscribeA_obs_self (k : SubjM.Kind) (s : SubjM.State) (o : Nat) (hs : (
     · split
       · right; simp
       · left; simp [SubjM.register_obs, SubjM.register_registered]
+  | async =>
+    dsimp only
+    split
+    · right; simp
+    · right; simp
+    · left; simp [SubjM.register_obs, SubjM.register_registered]
   | _ => left; simp [SubjM.register_obs, SubjM.register_registered]
 
 theorem subscribeA_reg_mono (k : SubjM.Kind) (s : SubjM.State) (o o' : Nat) (h : o' ∈ registered s) :
@@ -1453,10 +1459,25 @@ theorem Core.unsubscribe {k : Kind} (hk : k.counts = true) (src : Src) {st : Sta
 
 theorem good_emit {k : SubjM.Kind} {s : SubjM.State} (hg : SubjM.Good k s) (ev : Ev) :
     SubjM.Good k (emit k s ev) := by
-  cases ev with
-  | next v => exact hg.step (.next v)
-  | error e => exact hg.step (.error e)
-  | complete => exact hg.step .complete
+  cases k with
+  | async =>
+    have hi := hg.inv.emit ev
+    exact ⟨hi, hi.armed_of_not_replay rfl, fun o ho => hi.regAlive o ho rfl⟩
+  | plain =>
+    cases ev with
+    | next v => exact hg.step (.next v)
+    | error e => exact hg.step (.error e)
+    | complete => exact hg.step .complete
+  | behavior i =>
+    cases ev with
+    | next v => exact hg.step (.next v)
+    | error e => exact hg.step (.error e)
+    | complete => exact hg.step .complete
+  | replay =>
+    cases ev with
+    | next v => exact hg.step (.next v)
+    | error e => exact hg.step (.error e)
+    | complete => exact hg.step .complete
 
 /-! ### the first subscriber -/
 
